@@ -121,21 +121,28 @@ def code_parsed(data):
     reply = bytes(req["input"])
     if "multiple" in req:
         ms = []
-        dropped = False
-        try:
-            total = list(req["multiple"].get("request", []))
-            for m in total:
+        flags = {"dropped": False, "nested": False}
+
+        def walk(bundle, depth):
+            # members in execution order; a bundle inside a bundle is executed member by member in place
+            for m in list(bundle["multiple"].get("request", [])):
+                if "multiple" in m and executed(m) and depth < 400:
+                    flags["nested"] = True
+                    walk(m, depth + 1)
+                    continue
                 r = w.parsed_request(m, top=False) if executed(m) else None
                 if r is None:
-                    dropped = True       # not one of the modelled services in complete form: cannot be a write
+                    flags["dropped"] = True   # not one of the modelled services in complete form: cannot be a write
                     continue
                 ms.append((r, bytes(m["input"])))
+        try:
+            walk(req, 0)
         except Exception:
             return None, [], None, False
         if "path" not in req or "segment" not in req["path"]:
             return None, [], None, False
         cp = {"op": "mu", "path": w._path_of(req), "reqs": [m for m, _ in ms]}
-        eff = len(reply) < 4 or reply[2] != 0 or dropped
+        eff = len(reply) < 4 or reply[2] != 0 or flags["dropped"] or flags["nested"]
         if not ms:
             # nothing executed: an empty bundle has no model line
             return (cp if not eff else None), [], reply, eff
@@ -281,3 +288,26 @@ def run_engine(case):
         Counter.budget = None
         Counter.nodes = frozenset()
     return "%d:%d:%s" % (Counter.runs, src.sent, out)
+
+
+class MemberBytes:
+    total = 0
+    installed = False
+
+
+def install_member_counter():
+    """count the bytes handed to the target's parser for every member of every Multiple Service Packet
+    (`state_multiple_service` closure: `source = peekable( req.input )`)"""
+    if MemberBytes.installed:
+        return
+    from cpppo.server.enip import device
+    orig = device.peekable
+
+    def counting(iterable=None):
+        try:
+            MemberBytes.total += len(iterable)
+        except TypeError:
+            pass
+        return orig(iterable)
+    device.peekable = counting
+    MemberBytes.installed = True
